@@ -401,8 +401,12 @@ fn encode_subframe(
             Verbatim::count_bits_from_metadata(samples.len(), bits_per_sample as usize);
 
         let too_short = samples.len() < MIN_BLOCK_SIZE_FOR_PREDICTION;
+        // `fixed_lpc` accepts a candidate based on an estimated size. The estimate can be
+        // far below the actual size (e.g. when residuals are too large for the Rice
+        // parameter range), so the actual size is compared with the verbatim size here.
         let fixed = if !too_short && config.use_fixed {
             fixed_lpc(config, samples, bits_per_sample, baseline_bits)
+                .filter(|candidate| candidate.count_bits() < baseline_bits)
         } else {
             None
         };
